@@ -239,13 +239,17 @@ class Output(BaseOutput):
 
         if self.layout == "dense":
             # Column = particle identifier, independent of removal of dead particles
+            # The whole row is written, with fill values for particles not alive.
+            # A row (or the tail of a row) that is never written can not be read
+            # back reliably in one piece with two unlimited dimensions
             alive = state.alive
             pid = state.pid[alive]
+            npid = int(state.npid)
             for var in self.instance_variables:
-                if len(pid) > 0:
-                    self.nc.variables[var][self.local_record_count, pid] = getattr(
-                        state, var
-                    )[alive]
+                if npid > 0:
+                    self.nc.variables[var][self.local_record_count, :npid] = (
+                        dense_row(getattr(state, var)[alive], pid, npid)
+                    )
         elif self.layout == "sparse":
             count = len(state)  # Present number of particles
             start = self.local_instance_count
@@ -258,9 +262,10 @@ class Output(BaseOutput):
         if self.lonlat:
             lon, lat = self.xy2ll(state.X, state.Y)
             if self.layout == "dense":
-                if len(pid) > 0:
-                    self.nc.variables["lon"][self.local_record_count, pid] = lon[alive]
-                    self.nc.variables["lat"][self.local_record_count, pid] = lat[alive]
+                if npid > 0:
+                    rec = self.local_record_count
+                    self.nc.variables["lon"][rec, :npid] = dense_row(lon[alive], pid, npid)
+                    self.nc.variables["lat"][rec, :npid] = dense_row(lat[alive], pid, npid)
             elif self.layout == "sparse":
                 self.nc.variables["lon"][start:end] = lon
                 self.nc.variables["lat"][start:end] = lat
@@ -305,6 +310,13 @@ class Output(BaseOutput):
     def close(self) -> None:
         if self.nc.isopen():
             self.nc.close()
+
+
+def dense_row(values: np.ndarray, pid: np.ndarray, npid: int) -> np.ma.MaskedArray:
+    """A complete row of a dense record: values at their pid, masked (fill) elsewhere"""
+    row = np.ma.masked_all(npid, dtype=values.dtype)
+    row[pid] = values
+    return row
 
 
 def filename_generator(filename: Path) -> Generator[Path, None, None]:
